@@ -229,7 +229,10 @@ func (t *Array) Process(ctx *ProcessContext, di *DataIndexer, accessor Accessor)
 	// Skip redundant bits post decoding.
 	if t.extensible && !ctx.isEncode {
 		// Skip redundant bits.
-		ito := i + int(ahead)*t.capacity
+		// The opponent array occupies 16 bits (ahead) plus `ahead` elements,
+		// each as large as the elements just processed.
+		elementNbits := (ctx.i - i - 16) / t.capacity
+		ito := i + 16 + int(ahead)*elementNbits
 		if ito >= ctx.i {
 			ctx.i = ito
 		}
